@@ -234,6 +234,25 @@ def run(res, a):
             viol.append(("fixedpoint", "fixed point literal %r is rejected: %s" % (lit, o["err"]), lit))
         elif o.get("bin", "").zfill(sb)[-sb:] != want or (o.get("bits") not in (sb, None)):
             viol.append(("fixedpoint", "fixed point literal %r (= %d / 2^%d) imports as %s bits %s, expected %s" % (lit, k, fb, o.get("bits"), o.get("bin"), want), lit))
+    # linear quantizer literals (range 1 loaded from corpus/lqrange1.txt: largest magnitude 8, so the step of an s-bit word is
+    # 8 / 2^(s-1) and every k * step is exact): 0lq<s.1>v denotes the s-bit two's complement pattern of k, and prints back as itself
+    lq = []
+    for sb in (5, 8, 12, 16):
+        for _ in range(4 if a.tier == "quick" else 40):
+            k = rnd.randrange(-(1 << (sb - 1)) + 1, 1 << (sb - 1))
+            lq.append((sb, k, "0lq<%d.1>%s" % (sb, repr(k * 8 / (1 << (sb - 1))))))
+    lout = C.jsonl(C.sh([C.BMH, "c08", "-types", DYN_TYPES, "-ranges", "1," + os.path.join(C.VERIF, "corpus/lqrange1.txt")],
+                        input="".join(json.dumps({"op": "import", "s": t[2], "n": t[0]}) + "\n" for t in lq), timeout=600).stdout)
+    for (sb, k, lit), o in zip(lq, lout):
+        res.count_case({"s": lit}, nontrivial=True)
+        want = format(k % (1 << sb), "0%db" % sb)
+        if o.get("err"):
+            viol.append(("quantizer", "linear quantizer literal %r is rejected: %s" % (lit, o["err"]), lit))
+        elif o.get("bin", "").zfill(sb)[-sb:] != want or (o.get("bits") not in (sb, None)):
+            viol.append(("quantizer", "linear quantizer literal %r (= %d steps) imports as %s bits %s, expected %s" % (lit, k, o.get("bits"), o.get("bin"), want), lit))
+        elif o.get("reerr") or (o.get("retype"), o.get("rebits"), o.get("re")) != (o.get("type"), o.get("bits"), o.get("bin", "")):
+            viol.append(("roundtrip", "import(export(%r)) = %s/%s/%s, expected %s/%s/%s (exported text %r)" % (
+                lit, o.get("retype"), o.get("rebits"), o.get("re") or o.get("reerr"), o.get("type"), o.get("bits"), o.get("bin"), o.get("str")), lit))
     mism_num = []
     if not broken_translation:
         rows = []
